@@ -86,6 +86,9 @@ func exprSlots(v any, f func(e map[string]any, set func(any))) {
 	case map[string]any:
 		for _, key := range sortedAnyKeys(x) {
 			c := x[key]
+			if key == "l" || key == "ls" {
+				continue // lvalues stay what they are
+			}
 			if e, ok := c.(map[string]any); ok {
 				k := str(e["k"])
 				if k == "bin" || k == "un" || k == "call" || k == "ix" || k == "len" || k == "fld" || k == "sub" {
@@ -303,7 +306,7 @@ func minimise(prog N, fn string, args []any, kind string) (N, []string) {
 		var keep []N
 		for i, c := range cands {
 			id := fmt.Sprintf("r%d_%d", round, i)
-			src, chk, err := renderChecked(c, id)
+			src, chk, err := safeRender(c, id)
 			if err != nil {
 				continue
 			}
@@ -360,4 +363,14 @@ func minimise(prog N, fn string, args []any, kind string) (N, []string) {
 	}
 	// the signature names the constructs of the whole reduced program (callees included)
 	return cur, kindList(map[string]any{"entry": f, "all": cur["funcs"]})
+}
+
+// safeRender: a reduction step may produce a tree the printer has no spelling for; such a candidate is dropped.
+func safeRender(p N, id string) (src string, chk *Checked, err error) {
+	defer func() {
+		if r := recover(); r != nil {
+			err = fmt.Errorf("unprintable: %v", r)
+		}
+	}()
+	return renderChecked(p, id)
 }
